@@ -4,8 +4,9 @@ Runs the quick check of the property each seeded change breaks against a scratch
 and records the outcome in meta.json (our_checks) and in seeded/SUMMARY.md."""
 import json, os, subprocess, sys, re
 V = os.path.dirname(os.path.dirname(os.path.abspath(__file__)))
-names = sys.argv[1:] or sorted(d for d in os.listdir(os.path.join(V, "seeded")) if os.path.isdir(os.path.join(V, "seeded", d)))
-for n in names:
+summary_only = "--summary-only" in sys.argv
+names = [a for a in sys.argv[1:] if not a.startswith("--")] or sorted(d for d in os.listdir(os.path.join(V, "seeded")) if os.path.isdir(os.path.join(V, "seeded", d)))
+for n in ([] if summary_only else names):
     d = os.path.join(V, "seeded", n)
     meta = json.load(open(os.path.join(d, "meta.json")))
     pid = meta["property"]
@@ -23,5 +24,5 @@ for n in sorted(os.listdir(os.path.join(V, "seeded"))):
     if os.path.exists(mp):
         m = json.load(open(mp))
         for c, r in m.get("our_checks", {}).items():
-            rows.append("| %s | %s | %s | %s |" % (n, c, "caught (exit 1)" if r["exit"] == 1 else "MISSED (exit %d)" % r["exit"], ", ".join(r.get("asserts", [])[:4])))
-open(os.path.join(V, "seeded", "SUMMARY.md"), "w").write("| seeded change | check | outcome | assertions that fired |\n|---|---|---|---|\n" + "\n".join(rows) + "\n")
+            rows.append("| %s | %s | %s | %s | %s |" % (n, m.get("needs", "")[:140], c, "caught (exit 1)" if r["exit"] == 1 else "not this check (exit %d)" % r["exit"], ", ".join(r.get("asserts", [])[:3])))
+open(os.path.join(V, "seeded", "SUMMARY.md"), "w").write("| seeded change | needs, to manifest | check | outcome | assertions that fired |\n|---|---|---|---|---|\n" + "\n".join(rows) + "\n")
